@@ -88,7 +88,21 @@ def _produce(o):
     elif isinstance(o, PickleNode):
         o.save("made")
 
-def body(name, kwargs, products):
+def sort_path_lists(o):
+    """lists that hold only Paths come from directory patterns: their order is the directory's, compared as sorted"""
+    if isinstance(o, list):
+        if o and all(isinstance(c, Path) for c in o):
+            return sorted(o)
+        return [sort_path_lists(c) for c in o]
+    if isinstance(o, tuple):
+        return tuple(sort_path_lists(c) for c in o)
+    if isinstance(o, dict):
+        return {k: sort_path_lists(v) for k, v in o.items()}
+    return o
+
+def body(name, kwargs, products, sort_paths=False):
+    if sort_paths:
+        kwargs = {k: sort_path_lists(v) for k, v in kwargs.items()}
     (ROOT / (name + ".log")).write_text(json.dumps({k: canon(v) for k, v in kwargs.items()}))
     for p in products:
         _produce(kwargs[p])
